@@ -1334,9 +1334,10 @@ fn filter_text_strikeout(s: &str) -> Option<String> {
     let mut result = String::new();
     for c in s.chars() {
         result.push(c);
-        if UnicodeWidthChar::width(c).unwrap_or(0) > 0 {
-            // This is a character with width (not a combining or other character)
-            // so add a strikethrough combiner.
+        if !c.is_whitespace() && UnicodeWidthChar::width(c).unwrap_or(0) > 0 {
+            // This is a character with width (not whitespace, which is
+            // collapsed and dropped at line ends later, nor a combining or
+            // other character) so add a strikethrough combiner.
             result.push('\u{336}');
         }
     }
